@@ -325,6 +325,41 @@ pub fn run(run: &Run) {
             }
         }
     }
+    // the same point set as both arguments (K(x,x)): every ordered tuple of 4..=5 (6) points from a 6-point
+    // lattice - sorted, unsorted, with repeats, evenly spaced, and evenly spaced at the ends only
+    let same_lat = [-1.0, 0.0, 1.0, 1.5, 3.0, 4.0];
+    let same_max = run.tier.pick(5usize, 6usize);
+    run.bound("same-set tuples", format!("all ordered tuples of 4..={} points from a 6-point lattice as both arguments, 6 kernels × 4 argument kinds; 12 structured sets", same_max));
+    for k in &sub {
+        for n in 4..=same_max {
+            par_words(same_lat.len(), n, |w| {
+                let x: Vec<f64> = w.iter().map(|&i| same_lat[i]).collect();
+                let kinds: &[usize] = if w[0] % 2 == 0 { &[0, 3] } else { &[1, 2] };
+                matrix_suite(run, k, &x, &x, kinds);
+                run.nontrivial(1);
+            });
+        }
+        let structured: Vec<Vec<f64>> = vec![
+            vec![0.0, 1.0, 1.5, 3.0, 4.0],
+            vec![3.0, 2.0, 2.0, -1.0, -1.0, 0.0, -1.0],
+            vec![0.0, 1.0, 1.1, 1.2, 1.3, 5.0, 6.0],
+            vec![0.0, 2.0, 2.5, 3.0, 9.5, 10.0, 12.0],
+            vec![10.0, 10.5, 10.625, 12.0, 12.5],
+            (0..9).map(|i| 0.5 * i as f64).collect(),
+            (0..9).map(|i| if i == 4 { 2.25 } else { 0.5 * i as f64 }).collect(),
+            (0..33).map(|i| if i == 17 { 1.0 } else { 0.25 * i as f64 - 4.0 }).collect(),
+            (0..33).map(|i| 0.25 * i as f64 - 4.0).collect(),
+            (0..12).map(|i| 4.0 - (i as f64) / 3.0).collect(),
+            vec![1.0; 6],
+            vec![-2.0, -2.0, 0.0, 2.0, 2.0],
+        ];
+        for x in &structured {
+            matrix_suite(run, k, x, x, &[0, 1, 2, 3]);
+            let shifted: Vec<f64> = x.iter().map(|v| v + 100.0).collect();
+            matrix_suite(run, k, &shifted, &shifted, &[1, 3]);
+            run.nontrivial(2);
+        }
+    }
     // every shape: point sets of 1..60 points on either side (sizes straddling 8, 16, 32 where a
     // product underneath may change its blocking), dyadic points, both argument kinds per shape
     let sizes: Vec<usize> = if run.thorough() { (1..=60).collect() } else { vec![1, 2, 7, 8, 9, 16, 17, 31, 32, 33, 40, 59, 60] };
